@@ -654,8 +654,22 @@ func genHistory(seed int64, id int) History {
 	op := importOp(bfile, ffile, S, pickBatch(r), "plain")
 	var pre []Op
 	switch {
-	case kind < 34:
+	case kind < 28:
 		// plain: extension / overlap as drawn
+	case kind < 34:
+		// block store ahead of the filter store, with injected write failures
+		F, op = blockAhead(r, g, main, variant, N, B)
+		switch r.Intn(4) {
+		case 0:
+			op.FailBW = 1 + r.Intn(2)
+		case 1, 2:
+			op.FailFW = 1 + r.Intn(3)
+		case 3:
+			op.FailFW = 1 + r.Intn(3)
+			op.FailRB = true
+		}
+		op.Batch = 1 + r.Intn(3)
+		op.Tag += "-fault"
 	case kind < 40:
 		// gap
 		if B+2 <= N-1 {
@@ -732,10 +746,15 @@ func genHistory(seed int64, id int) History {
 		op = importOp(bfile, ffile, S, pickBatch(r), "filter-wrong")
 	case kind < 80:
 		// block store ahead of the filter store
-		if B >= 1 {
-			F = r.Intn(B)
+		if r.Intn(4) == 0 {
+			// file as drawn relative to the block tip
+			if B >= 1 {
+				F = r.Intn(B)
+			}
+			op.Tag = "block-ahead"
+		} else {
+			F, op = blockAhead(r, g, main, variant, N, B)
 		}
-		op.Tag = "block-ahead"
 	case kind < 84:
 		// filter tip unreadable: block store rolled back below the filter tip
 		if B >= 1 {
@@ -819,6 +838,61 @@ func genHistory(seed int64, id int) History {
 	return h
 }
 
+// blockAhead draws a filter tip F below the block tip B and a file placed
+// relative to the filter tip: start at or below F+1, end within both stores,
+// within the block store only (divergence region), or above the block tip;
+// sometimes the file forks off the stored chain inside the divergence region.
+func blockAhead(r *rand.Rand, g *gen, main []int, variant, N, B int) (int, Op) {
+	F := B
+	if B >= 1 {
+		F = r.Intn(B)
+	}
+	S := r.Intn(F + 2)
+	if r.Intn(3) == 0 {
+		S = F + 1
+	}
+	if S > B {
+		S = B
+	}
+	lo1 := S
+	if F+1 > lo1 {
+		lo1 = F + 1
+	}
+	E := S
+	switch z := r.Intn(5); {
+	case z == 0 && S <= F:
+		E = S + r.Intn(F-S+1)
+	case z <= 2 || N-1 <= B:
+		if lo1 <= B {
+			E = lo1 + r.Intn(B-lo1+1)
+		}
+	default:
+		E = B + 1 + r.Intn(N-1-B)
+	}
+	bfile := append([]int{}, main[S:E+1]...)
+	tag := "block-ahead"
+	if r.Intn(6) == 0 && lo1 <= E && lo1 >= 1 {
+		// a valid fork leaving the stored chain at cpos > F
+		hi := E
+		if hi > B {
+			hi = B
+		}
+		if lo1 <= hi {
+			cpos := lo1 + r.Intn(hi-lo1+1)
+			n := Node{Parent: main[cpos-1], DT: g.dt(variant) + 1 + int64(r.Intn(3))}
+			alt := []int{g.add(n)}
+			alt = append(alt, g.chain(alt[0], E-cpos, variant)...)
+			bfile = append(append([]int{}, main[S:cpos]...), alt...)
+			tag = "block-ahead-fork"
+		}
+	}
+	ffile := seqTok(S, E)
+	if S == 0 {
+		ffile[0] = 0
+	}
+	return F, importOp(bfile, ffile, S, pickBatch(r), tag)
+}
+
 // corpus: fixed regression histories (the witnesses of the fixed findings first).
 func corpus() []History {
 	var out []History
@@ -872,6 +946,29 @@ func corpus() []History {
 		op := importOp(main[1:12], seqTok(1, 11), 1, 5, "block-ahead")
 		op2 := importOp(main[1:4], seqTok(1, 3), 1, 2, "block-ahead-overlap")
 		out = append(out, History{Variant: 0, Nodes: g.nodes, InitB: main[:8], InitF: initF(4), Ops: []Op{op, op2}})
+	}
+	// F27: block store ahead; the filter store catches up over several
+	// filter-only batches, then both are extended; file ending below the
+	// block tip (start 0, batch 2); filter write failing inside the
+	// divergence region
+	{
+		g, main := mk(1, 21)
+		op := importOp(main[3:21], seqTok(3, 20), 3, 2, "f27")
+		rep := op
+		rep.Tag = "repeat"
+		out = append(out, History{Variant: 1, Nodes: g.nodes, InitB: main[:10], InitF: initF(5), Ops: []Op{op, rep}})
+		ff := seqTok(0, 8)
+		ff[0] = 0
+		op2 := importOp(main[0:9], ff, 0, 2, "f27-short")
+		rep2 := op2
+		rep2.Tag = "repeat"
+		out = append(out, History{Variant: 1, Nodes: g.nodes, InitB: main[:10], InitF: initF(5), Ops: []Op{op2, rep2}})
+		op3 := importOp(main[1:21], seqTok(1, 20), 1, 2, "f27-fault")
+		op3.FailFW = 2
+		rep3 := op3
+		rep3.FailFW = 0
+		rep3.Tag = "repeat"
+		out = append(out, History{Variant: 1, Nodes: g.nodes, InitB: main[:10], InitF: initF(5), Ops: []Op{op3, rep3}})
 	}
 	// from genesis into empty stores, default batch; then idempotent repeat
 	{
